@@ -651,7 +651,9 @@ func (a *Agent) AddJobToQueue(job Job) []Job {
 		a.PivotAddJob(job)
 		// if it's a direct agent add the job to the direct agent
 	} else {
+		a.JobQueueMtx.Lock()
 		a.JobQueue = append(a.JobQueue, job)
+		a.JobQueueMtx.Unlock()
 	}
 	return a.JobQueue
 }
@@ -660,6 +662,9 @@ func (a *Agent) GetQueuedJobs() []Job {
 	var Jobs []Job
 	var JobsSize = 0
 	var NumJobs = 0
+
+	a.JobQueueMtx.Lock()
+	defer a.JobQueueMtx.Unlock()
 
 	// make sure we return a number of jobs that doesn't exceed DEMON_MAX_RESPONSE_LENGTH
 	for _, job := range a.JobQueue {
@@ -764,7 +769,9 @@ func (a *Agent) PivotAddJob(job Job) {
 	// add this job to pivot queue.
 	// tho it's not going to be used besides for the task size calculator
 	// which is going to be displayed to the operator.
+	a.JobQueueMtx.Lock()
 	a.JobQueue = append(a.JobQueue, job)
+	a.JobQueueMtx.Unlock()
 
 	PivotJob = Job{
 		Command: COMMAND_PIVOT,
@@ -808,7 +815,9 @@ func (a *Agent) PivotAddJob(job Job) {
 		pivots = &pivots.Parent.Pivots
 	}
 
+	pivots.Parent.JobQueueMtx.Lock()
 	pivots.Parent.JobQueue = append(pivots.Parent.JobQueue, PivotJob)
+	pivots.Parent.JobQueueMtx.Unlock()
 }
 
 func (a *Agent) DownloadAdd(FileID int, FilePath string, FileSize int64) error {
